@@ -1,10 +1,10 @@
 #!/bin/bash
-# tools/run_matrix.sh <tier> <seed>... : every registered check at the given tier for each seed; one result line per run
+# tools/run_matrix.sh <tier> <seed>... : every registered check (or those in $PROPS) at the given tier for each seed; one result line per run
 cd "$(dirname "$0")/.."
 tier=$1; shift
 mkdir -p build evidence
 for seed in "$@"; do
-  for p in C01 C02 C03 C04 C05 C06 C07 C08 C09 C10 C11 C12 C13 C14 C15 C16 C17 C18 C19 C20; do
+  for p in ${PROPS:-C01 C02 C03 C04 C05 C06 C07 C08 C09 C10 C11 C12 C13 C14 C15 C16 C17 C18 C19 C20}; do
     t0=$(date +%s)
     VERIF_SEED=$seed bin/check $p --tier $tier > /tmp/matrix-$tier-$seed-$p.log 2>&1; rc=$?
     echo "seed=$seed tier=$tier $p rc=$rc $(( $(date +%s) - t0 ))s $(grep -E '^(VIOLATION|KNOWN-FINDING|MODEL-DRIFT|INFRA)' /tmp/matrix-$tier-$seed-$p.log | head -3 | tr '\n' ' ' | cut -c1-300)"
